@@ -346,14 +346,21 @@ impl Context {
             ctx.set_task(&task);
             ctx.emit_task(&ctx.task())?;
 
-            for t in task.children() {
-                if t.state().is_pending() {
-                    t.set_state(TaskState::Skipped);
-                    ctx.emit_task(&t)?;
-                } else if t.state().is_running() {
-                    t.set_state(TaskState::Aborted);
-                    ctx.emit_task(&t)?;
+            // close whatever is still open below the aborted task, however deep and in whatever open state
+            let mut children = task.children();
+            while !children.is_empty() {
+                let mut nexts = Vec::new();
+                for t in &children {
+                    if t.state().is_pending() {
+                        t.set_state(TaskState::Skipped);
+                        ctx.emit_task(t)?;
+                    } else if !t.state().is_completed() {
+                        t.set_state(TaskState::Aborted);
+                        ctx.emit_task(t)?;
+                    }
+                    nexts.extend_from_slice(&t.children());
                 }
+                children = nexts;
             }
 
             parent = task.parent();
